@@ -6,6 +6,21 @@ BASELINE = ("cd /repo && cargo nextest run --workspace --no-fail-fast --test-thr
             "|| cargo test --workspace --no-fail-fast --offline")
 
 CHECKS = {
+    "C04": dict(
+        category="exploration",
+        text=("Statistical end-to-end check through the public API: every combination of {diagonal, low-rank} x {Euclidean, ExactNormal} x "
+              "{dual averaging, Adam} is run with default settings (4 chains, default warmup, 1000 draws; 10000 in the thorough tier) on "
+              "generated targets with known moments and quantiles (isotropic, scaled over up to 6 decades and correlated Gaussians, Student-t(8), "
+              "exp-gamma). Per coordinate the mean, the variance and the empirical CDF at the true 5/25/50/75/95 % quantiles are compared with "
+              "the truth using batch-means standard errors (80 batches): |z| <= 7, ESS >= 200, no post-warmup divergence on well-conditioned "
+              "Gaussians. The momentum drawn at the start of each trajectory is observed through a recording Math wrapper: unit scale "
+              "argument, KS test against N(0,1), mean/variance, lag-1 correlation and correlation with the whitened position."),
+        design_ref="DESIGN.md section 3, C04",
+        note=("Statistical: under the null each test fails with probability < 1e-9 (calibrated: max |z| 4.8 over 80 000 tests on the Euclidean "
+              "presets), about 1e-5 per run. Sensitive to spread errors of roughly 15 % (quick) / 5 % (thorough), not to small biases. Three "
+              "genuine findings for the ExactNormal kinetic energy are listed in known_findings.json and excluded by signature."),
+        technique="generated targets with known moments, batch-means z-tests and KS test on seeded chains (known-answer statistics with stated error budget)",
+    ),
     "C18": dict(
         category="exploration",
         text=("The three MCLMC presets are run through the public API with a SpyMath backend (a delegating implementation of the public Math "
